@@ -57,8 +57,8 @@ def step (st : St) (fs : List String) : St × String :=
         | some g => ({ st with graph := some g }, "-\tok")
         | none => ({ st with graph := none }, "-\tbad:machinery:graph-unparsed")
     | _ => ({ st with graph := none }, "-\tbad:machinery:graph-fields")
-  | ["c25", entry] => (st, c25Line st.graph entry)
-  | ["c25dbg", entry] => (st, c25Debug st.graph entry)
+  | ["c25", _, entry] => (st, c25Line st.graph entry)
+  | ["c25dbg", _, entry] => (st, c25Debug st.graph entry)
   | "c10" :: _ =>
     let possible : Str → List Str := fun t =>
       match st.schema with
